@@ -21,8 +21,9 @@
 EXTENDS MC_Hub, Minter
 
 VARIABLES mx,     \* the Minter chain [h, nonce, m, thr, cust, ref]
-          cn      \* connector cursors: validator -> [blk, ev, bat, vs]
-mvars == <<hub, xw, g, hist, bad, pick, cnt, mx, cn>>
+          cn,     \* connector cursors (persisted = in memory between passes): validator -> [blk, ev, bat, vs]
+          down    \* connectors whose process has died and not been started again
+mvars == <<hub, xw, g, hist, bad, pick, cnt, mx, cn, down>>
 
 \* scripts/cfg_minter.json: keys and prices as in the fees family, v1 holds half of the stake (so that two
 \* validators can reach the multisig threshold of 667/1000)
@@ -36,6 +37,7 @@ InitM ==
     /\ mx = [h |-> 0, nonce |-> 0, thr |-> MinterThreshold, cust |-> <<>>, ref |-> <<>>,
              m |-> ValsetWeights(SortedMembers(Cfg(InitMinterHub), CurrentSigners(InitMinterHub, MC)))]
     /\ cn = [v \in Vals |-> [blk |-> 0, ev |-> 1, bat |-> 1, vs |-> 0]]
+    /\ down = {}
 
 Rec(act) == /\ hist' = IF KeepHist THEN Append(hist, [act EXCEPT !.i = cnt + 1]) ELSE hist
             /\ cnt' = cnt + 1
@@ -68,12 +70,12 @@ MntDeposit ==
                                 !.ref = IF class = "ok" THEN Append(@, ev) ELSE @]
             /\ Rec([k |-> "MntDeposit", i |-> 0, user |-> "e7", tok |-> tok, amt |-> amt, fee |-> fee, class |-> class, rch |-> rch,
                     rcv |-> IF rch = "hub" THEN "a3" ELSE "e8"])
-    /\ UNCHANGED <<hub, g, xw, cn>> /\ bad' = {}
+    /\ UNCHANGED <<hub, g, xw, cn, down>> /\ bad' = {}
 
 MntMine ==
     /\ mx.h < 14
     /\ mx' = [mx EXCEPT !.h = @ + 2] /\ Rec([k |-> "MntMine", i |-> 0, n |-> 2])
-    /\ UNCHANGED <<hub, g, xw, cn>> /\ bad' = {}
+    /\ UNCHANGED <<hub, g, xw, cn, down>> /\ bad' = {}
 
 \* ---------------------------------------------------------------- the connectors
 Orch(v) == LET os == {o \in DOMAIN hub.ch[MC].ov : hub.ch[MC].ov[o] = v} IN IF os = {} THEN v ELSE CHOOSE o \in os : TRUE
@@ -92,14 +94,14 @@ Advance(cur, evs, to) ==
 ScanOf(v) ==
     LET evs  == ScanClaims(mx, cn[v])
         acts == [i \in DOMAIN evs |-> [k |-> "Claim", i |-> 0, by |-> Orch(v), chain |-> MC, ev |-> Numbered(cn[v], evs)[i]]]
-    IN /\ cn[v].blk < mx.h /\ Len(evs) <= 10
+    IN /\ cn[v].blk < mx.h /\ Len(evs) <= 10 /\ v \notin down
        /\ Hidden(IF evs = <<>> THEN <<>> ELSE <<TxOf(v, acts)>>, [k |-> "ConnScan", i |-> 0, by |-> v])
        /\ cn' = [cn EXCEPT ![v] = Advance(cn[v], evs, ScanTo(mx, cn[v]))]
-ConnScan == hub.inb /\ (\E v \in Vals : ScanOf(v)) /\ UNCHANGED <<mx, xw>>
+ConnScan == hub.inb /\ (\E v \in Vals : ScanOf(v)) /\ UNCHANGED <<mx, xw, down>>
 
 \* all three connectors scan (one model step, three script actions): keeps attestation likely in simulation
 ScanAll ==
-    /\ hub.inb /\ \A v \in Vals : cn[v].blk < mx.h /\ Len(ScanClaims(mx, cn[v])) \in 1..10
+    /\ hub.inb /\ down = {} /\ \A v \in Vals : cn[v].blk < mx.h /\ Len(ScanClaims(mx, cn[v])) \in 1..10
     /\ LET order == <<"v1", "v2", "v3">>
            F[k \in 0..3] ==
              IF k = 0 THEN [s |-> hub, g |-> g, bad |-> {}]
@@ -115,50 +117,79 @@ ScanAll ==
           /\ hist' = IF KeepHist THEN hist \o [k \in 1..3 |-> [k |-> "ConnScan", i |-> cnt + k, by |-> order[k]]] ELSE hist
           /\ cnt' = cnt + 3
     /\ cn' = [v \in Vals |-> Advance(cn[v], ScanClaims(mx, cn[v]), ScanTo(mx, cn[v]))]
-    /\ UNCHANGED <<mx, xw>>
+    /\ UNCHANGED <<mx, xw, down>>
 
 \* the addresses the hub attributes the stored confirmations of tx to
 ConfOf(s, tx) == {s.ch[MC].ve[w] : w \in {w \in DOMAIN SigsOf(s, MC, tx) : Has(s.ch[MC].ve, w)}}
-Eligible(v) == SignerVal(hub, MC, Orch(v)) = v /\ Has(hub.ch[MC].ve, v)
+OrchIn(s, v) == LET os == {o \in DOMAIN s.ch[MC].ov : s.ch[MC].ov[o] = v} IN IF os = {} THEN v ELSE CHOOSE o \in os : TRUE
+EligibleIn(s, v) == SignerVal(s, MC, OrchIn(s, v)) = v /\ Has(s.ch[MC].ve, v)
 
 BatTx(b) == [t |-> "bat", tok |-> b.tok, n |-> b.n]
 SsTx(x)  == [t |-> "ss", n |-> x.n]
-ConfirmActs(v, txs) == [i \in DOMAIN txs |-> [k |-> "Confirm", i |-> 0, by |-> Orch(v), chain |-> MC, tx |-> txs[i], ext |-> hub.ch[MC].ve[v], key |-> "?"]]
+ConfirmActsIn(s, v, txs) == [i \in DOMAIN txs |-> [k |-> "Confirm", i |-> 0, by |-> OrchIn(s, v), chain |-> MC, tx |-> txs[i], ext |-> s.ch[MC].ve[v], key |-> "?"]]
+TxIn(s, v, acts) == IF Len(acts) = 1 THEN acts[1] ELSE [k |-> "Tx", i |-> 0, by |-> OrchIn(s, v), msgs |-> acts]
 
-BatchesOf(v) ==
-    LET todo == SetToSeq({BatTx(b) : b \in {b \in hub.ch[MC].bat : ~Has(SigsOf(hub, MC, BatTx(b)), v)}})
-        hub1 == IF todo = <<>> THEN hub ELSE Step(hub, TxOf(v, ConfirmActs(v, todo))).s
-        want == BatchToRelay(hub1, cn[v], LAMBDA tx : ConfOf(hub1, tx))
-    IN /\ Eligible(v) /\ Len(todo) <= 10
-       /\ (todo # <<>> \/ want # <<>>)
-       /\ Hidden(IF todo = <<>> THEN <<>> ELSE <<TxOf(v, ConfirmActs(v, todo))>>, [k |-> "ConnBatches", i |-> 0, by |-> v])
-       /\ IF want = <<>> THEN mx' = mx
-          ELSE LET b == want[1]
-                   signers == ConfOf(hub1, BatTx(b)) \cap MsigMembers(mx)
-                   paid == SumOver(b.txs, LAMBDA tr : tr.a)
-                   ok == MsigAccepts(mx, b.seq, signers) /\ Get(mx.cust, b.tok, 0) >= paid
-               IN mx' = IF ~ok THEN mx
-                        ELSE [mx EXCEPT !.h = @ + 1, !.nonce = @ + 1, !.cust = Put(@, b.tok, Get(@, b.tok, 0) - paid),
-                                        !.ref = Append(@, [t |-> "Exec", n |-> Len(mx.ref) + 1, tok |-> b.tok, bn |-> b.n, eh |-> mx.h + 1,
-                                                           txh |-> "x" \o ToString(cnt + 1), fp |-> 0, fpr |-> ""])]
-ConnBatches == hub.inb /\ (\E v \in Vals : BatchesOf(v)) /\ UNCHANGED <<cn, xw>>
+\* one hub step inside a connector pass, with the history variables
+HStep(st, act) ==
+    LET r == Step(st.hub, act)
+        res == [out |-> r.out, id |-> r.id]
+    IN [st EXCEPT !.hub = r.s, !.g = GhostNext(st.g, st.hub, act, res, r.s),
+                  !.bad = @ \cup StepChecks(st.g, st.hub, act, res, r.s) \cup C01Step(st.hub, act, r.s)]
 
-ValsetsOf(v) ==
-    LET todo == SetToSeq({SsTx(x) : x \in {x \in hub.ch[MC].ss : ~Has(SigsOf(hub, MC, SsTx(x)), v)}})
-        hub1 == IF todo = <<>> THEN hub ELSE Step(hub, TxOf(v, ConfirmActs(v, todo))).s
-        want == SetToRelay(hub1, cn[v], LAMBDA tx : ConfOf(hub1, tx))
-    IN /\ Eligible(v) /\ Len(todo) <= 10
-       /\ (todo # <<>> \/ want # <<>>)
-       /\ Hidden(IF todo = <<>> THEN <<>> ELSE <<TxOf(v, ConfirmActs(v, todo))>>, [k |-> "ConnValsets", i |-> 0, by |-> v])
-       /\ IF want = <<>> THEN mx' = mx
-          ELSE LET x == want[1]
-                   signers == ConfOf(hub1, SsTx(x)) \cap MsigMembers(mx)
-                   ed == ValsetEdit(x)
-               IN mx' = IF ~MsigAccepts(mx, x.seq, signers) THEN mx
-                        ELSE [mx EXCEPT !.h = @ + 1, !.nonce = @ + 1, !.m = ed.m, !.thr = ed.thr,
-                                        !.ref = Append(@, [t |-> "SSExec", n |-> Len(mx.ref) + 1, ssn |-> x.n, eh |-> mx.h + 1,
-                                                           m |-> [i \in DOMAIN ed.m |-> <<ed.m[i][1], <<0, ed.m[i][2]>>>>], txh |-> "x" \o ToString(cnt + 1)])]
-ConnValsets == hub.inb /\ (\E v \in Vals : ValsetsOf(v)) /\ UNCHANGED <<cn, xw>>
+\* relayBatches of validator v's connector on st = [hub, g, bad, mx, did]
+BatF(st, v, cur, stepNo) ==
+    LET todo == SetToSeq({BatTx(b) : b \in {b \in st.hub.ch[MC].bat : ~Has(SigsOf(st.hub, MC, BatTx(b)), v)}})
+        st1  == IF todo = <<>> THEN st ELSE HStep(st, [TxIn(st.hub, v, ConfirmActsIn(st.hub, v, todo)) EXCEPT !.i = stepNo])
+        want == BatchToRelay(st1.hub, cur, LAMBDA tx : ConfOf(st1.hub, tx))
+    IN IF ~EligibleIn(st.hub, v) \/ Len(todo) > 10 THEN st
+       ELSE IF want = <<>> THEN [st1 EXCEPT !.did = @ \/ todo # <<>>]
+       ELSE LET b == want[1]
+                signers == ConfOf(st1.hub, BatTx(b)) \cap MsigMembers(st.mx)
+                paid == SumOver(b.txs, LAMBDA tr : tr.a)
+                ok == MsigAccepts(st.mx, b.seq, signers) /\ Get(st.mx.cust, b.tok, 0) >= paid
+            IN [st1 EXCEPT !.did = TRUE,
+                           !.mx = IF ~ok THEN @
+                                  ELSE [@ EXCEPT !.h = @ + 1, !.nonce = @ + 1, !.cust = Put(@, b.tok, Get(@, b.tok, 0) - paid),
+                                                 !.ref = Append(@, [t |-> "Exec", n |-> Len(st.mx.ref) + 1, tok |-> b.tok, bn |-> b.n, eh |-> st.mx.h + 1,
+                                                                    txh |-> "x" \o ToString(stepNo), fp |-> 0, fpr |-> ""])]]
+
+\* relayValsets
+ValF(st, v, cur, stepNo) ==
+    LET todo == SetToSeq({SsTx(x) : x \in {x \in st.hub.ch[MC].ss : ~Has(SigsOf(st.hub, MC, SsTx(x)), v)}})
+        st1  == IF todo = <<>> THEN st ELSE HStep(st, [TxIn(st.hub, v, ConfirmActsIn(st.hub, v, todo)) EXCEPT !.i = stepNo])
+        want == SetToRelay(st1.hub, cur, LAMBDA tx : ConfOf(st1.hub, tx))
+    IN IF ~EligibleIn(st.hub, v) \/ Len(todo) > 10 THEN st
+       ELSE IF want = <<>> THEN [st1 EXCEPT !.did = @ \/ todo # <<>>]
+       ELSE LET x == want[1]
+                signers == ConfOf(st1.hub, SsTx(x)) \cap MsigMembers(st.mx)
+                ed == ValsetEdit(x)
+            IN [st1 EXCEPT !.did = TRUE,
+                           !.mx = IF ~MsigAccepts(st.mx, x.seq, signers) THEN @
+                                  ELSE [@ EXCEPT !.h = @ + 1, !.nonce = @ + 1, !.m = ed.m, !.thr = ed.thr,
+                                                 !.ref = Append(@, [t |-> "SSExec", n |-> Len(st.mx.ref) + 1, ssn |-> x.n, eh |-> st.mx.h + 1,
+                                                                    m |-> [i \in DOMAIN ed.m |-> <<ed.m[i][1], <<0, ed.m[i][2]>>>>], txh |-> "x" \o ToString(stepNo)])]]
+
+St0 == [hub |-> hub, g |-> g, bad |-> {}, mx |-> mx, did |-> FALSE]
+Commit(st) == hub' = st.hub /\ g' = st.g /\ bad' = st.bad /\ mx' = st.mx
+
+ConnBatches ==
+    /\ hub.inb
+    /\ \E v \in Vals \ down : LET st == BatF(St0, v, cn[v], cnt + 1) IN st.did /\ Commit(st) /\ Rec([k |-> "ConnBatches", i |-> 0, by |-> v])
+    /\ UNCHANGED <<cn, xw, down>>
+ConnValsets ==
+    /\ hub.inb
+    /\ \E v \in Vals \ down : LET st == ValF(St0, v, cn[v], cnt + 1) IN st.did /\ Commit(st) /\ Rec([k |-> "ConnValsets", i |-> 0, by |-> v])
+    /\ UNCHANGED <<cn, xw, down>>
+
+\* every connector runs the pass, one after the other (three script actions)
+Order3 == <<"v1", "v2", "v3">>
+AllOf(F(_, _, _, _), kind) ==
+    LET G[k \in 0..3] == IF k = 0 THEN St0 ELSE F(G[k - 1], Order3[k], cn[Order3[k]], cnt + k)
+    IN /\ G[3].did /\ Commit(G[3])
+       /\ hist' = IF KeepHist THEN hist \o [k \in 1..3 |-> [k |-> kind, i |-> cnt + k, by |-> Order3[k]]] ELSE hist
+       /\ cnt' = cnt + 3
+BatchesAll == hub.inb /\ down = {} /\ hub.ch[MC].bat # {} /\ AllOf(BatF, "ConnBatches") /\ UNCHANGED <<cn, xw, down>>
+ValsetsAll == hub.inb /\ down = {} /\ AllOf(ValF, "ConnValsets") /\ UNCHANGED <<cn, xw, down>>
 
 \* a connector process starts again from its status file (the model keeps memory and file equal: passes persist at their end)
 ConnRestart ==
@@ -168,14 +199,34 @@ ConnRestart ==
                 to  == ResyncTo(mx, cn[v], ack)
             IN cn' = [cn EXCEPT ![v] = Advance(cn[v], RefBetween(mx, cn[v].blk, to), to)]
          /\ Rec([k |-> "ConnRestart", i |-> 0, by |-> v])
+         /\ down' = down \ {v}
     /\ UNCHANGED <<hub, g, xw, mx>> /\ bad' = {}
 
-HubOnly(A) == A /\ UNCHANGED <<mx, cn>>
+\* a pass of relayMinterEvents whose cursor is lost: the process dies after the hub committed the claims and before the
+\* status file is written; the old file survives, the process is down until it is started again (ConnRestart)
+CrashOf(v) ==
+    LET evs  == ScanClaims(mx, cn[v])
+        acts == [i \in DOMAIN evs |-> [k |-> "Claim", i |-> 0, by |-> Orch(v), chain |-> MC, ev |-> Numbered(cn[v], evs)[i]]]
+    IN /\ cn[v].blk < mx.h /\ Len(evs) \in 1..10 /\ v \notin down
+       /\ Hidden(<<TxOf(v, acts)>>, [k |-> "ConnCrashScan", i |-> 0, by |-> v])
+       /\ down' = down \cup {v}
+ConnCrashScan == hub.inb /\ (\E v \in Vals : CrashOf(v)) /\ UNCHANGED <<mx, xw, cn>>
 
-MinterKinds == {"Begin", "NextBlock", "SendBatch", "StakeChange", "MntDeposit", "MntMine", "ConnScan", "ScanAll", "ConnBatches", "ConnValsets", "ConnRestart"}
+HubOnly(A) == A /\ UNCHANGED <<mx, cn, down>>
+
+\* a withdrawal to Minter by a user who holds enough vouchers (they come from attested Minter deposits)
+SendBatchM == (\E d \in Denoms : hub.bal["a3"][d] >= 104) /\ SendBatch
+
+SendM == (\E d \in Denoms : hub.bal["a3"][d] >= 104) /\ Send
+
+MinterKinds == {"Begin", "NextBlock", "NextBlock2", "SendBatch", "Send", "StakeChange", "MntDeposit", "MntDeposit2", "MntMine", "ConnScan", "ScanAll", "ScanAll2",
+                "ConnBatches", "BatchesAll", "ConnValsets", "ValsetsAll", "ConnRestart", "ConnCrashScan"}
 MinterAction(kind) ==
-    CASE kind = "MntDeposit" -> MntDeposit [] kind = "MntMine" -> MntMine [] kind = "ConnScan" -> ConnScan [] kind = "ScanAll" -> ScanAll
+    CASE kind \in {"MntDeposit", "MntDeposit2"} -> MntDeposit [] kind = "MntMine" -> MntMine [] kind = "ConnScan" -> ConnScan
+      [] kind \in {"ScanAll", "ScanAll2"} -> ScanAll
       [] kind = "ConnBatches" -> ConnBatches [] kind = "ConnValsets" -> ConnValsets [] kind = "ConnRestart" -> ConnRestart
+      [] kind = "BatchesAll" -> BatchesAll [] kind = "ValsetsAll" -> ValsetsAll [] kind = "ConnCrashScan" -> ConnCrashScan
+      [] kind = "SendBatch" -> HubOnly(SendBatchM) [] kind = "Send" -> HubOnly(SendM) [] kind = "NextBlock2" -> HubOnly(NextBlock)
       [] OTHER -> HubOnly(ActionOf(kind))
 
 NextM ==
@@ -183,23 +234,25 @@ NextM ==
     /\ IF ~TwoLevel THEN (\E kind \in MinterKinds : MinterAction(kind)) /\ pick' = ""
        ELSE IF pick = ""
        THEN /\ \E kind \in MinterKinds : ENABLED MinterAction(kind) /\ pick' = kind
-            /\ UNCHANGED <<hub, xw, g, hist, bad, cnt, mx, cn>>
+            /\ UNCHANGED <<hub, xw, g, hist, bad, cnt, mx, cn, down>>
        ELSE MinterAction(pick) /\ pick' = ""
 
 SpecM == InitM /\ [][NextM]_mvars
-ViewM == <<hub, xw, g, bad, mx, cn>>
+ViewM == <<hub, xw, g, bad, mx, cn, down>>
 
 \* ---------------------------------------------------------------- design-level invariants
 \* C20: every connector's cursor is consistent with the reference numbering
-CursorsConsistent == \A v \in Vals : CursorConsistent(mx, cn[v])
+CursorsConsistent == (\A v \in Vals : CursorConsistent(mx, cn[v])) \/ (DumpCex /\ FALSE)
 \* C20 / C08: whatever the hub has applied or recorded for a Minter nonce is the reference event of that nonce
-VotesAreReference == \A r \in hub.ch[MC].votes : r.n <= Len(mx.ref) /\ r.ev = mx.ref[r.n]
+VotesAreReference == (\A r \in hub.ch[MC].votes : r.n <= Len(mx.ref) /\ r.ev = mx.ref[r.n]) \/ (DumpCex /\ FALSE)
 \* C08: the hub never runs ahead of the Minter chain and agrees with it once every event is applied
 InStepM ==
-    /\ hub.ch[MC].lon <= Len(mx.ref)
-    /\ \A e \in ExecutedRefs(mx, hub.ch[MC].lon) : ~\E b \in hub.ch[MC].bat : b.tok = e.tok /\ b.n = e.bn
+    \/ /\ hub.ch[MC].lon <= Len(mx.ref)
+       /\ \A e \in ExecutedRefs(mx, hub.ch[MC].lon) : ~\E b \in hub.ch[MC].bat : b.tok = e.tok /\ b.n = e.bn
+    \/ (DumpCex /\ FALSE)
 \* C01: solvency against the multisig's balance
 SolvencyM ==
-    Solvent(hub, [xw EXCEPT ![MC].cust = [t \in DOMAIN @ |-> Get(mx.cust, t, 0)],
-                            ![MC].done = {<<e.tok, e.bn>> : e \in {e \in RangeOf(mx.ref) : e.t = "Exec"}}])
+    \/ Solvent(hub, [xw EXCEPT ![MC].cust = [t \in DOMAIN @ |-> Get(mx.cust, t, 0)],
+                               ![MC].done = {<<e.tok, e.bn>> : e \in {e \in RangeOf(mx.ref) : e.t = "Exec"}}])
+    \/ (DumpCex /\ FALSE)
 =============================================================================
